@@ -27,6 +27,8 @@ TEXT = {
              design_ref="3/C12", level_note=_NOTE + "; rcond bounds only in the admitted class cond*growth*n*eps <= 1e-3 and u >= 0.1", technique=_DST + "; oracle = reference inverse in extended precision"),
  "C13": dict(level_text="seeded exploration of p?gssvx: berr against the true componentwise backward error of the returned X for the equilibrated system in the requested transpose sense (|re|+|im| magnitudes in the complex precisions, as the library and LAPACK define it), berr <= 4(n+1)eps for cond < 1/sqrt(eps), ferr times the LAPACK slack 10 against the error versus a refined long-double reference solution",
              design_ref="3/C13", level_note=_NOTE, technique=_DST + "; oracle = extended-precision reference solution and backward error"),
+ "C08": dict(level_text="seeded exploration of call histories over one pattern through the expert driver and through p?gstrf_init/p?gstrf/?gstrs, internal memory and caller workspace, thread count and schedule drawn anew per call, genuinely new values per refactorization; every call is checked with the C01/C02/C07/C09 oracles for the values current at that call, pivot reuse is checked against a long-double elimination along the old row order, and solve-only calls must leave A, L, U and both permutations bit-identical",
+             design_ref="3/C08", level_note=_NOTE + "; the pivot-reuse clause is asserted only when every old pivot clearly passes (margin 1e-3) on a well-conditioned matrix", technique=_DST + " over operation histories; reference model of values, permutations and factor checksums"),
  "C09": dict(level_text="structural oracle over every successful factorization of the explored runs: permutations, supernode partition and maps, row-list shape, extent disjointness, nnz recounts, dependency order of supernode numbers; layouts are schedule-dependent (numbering order != storage order is probed)",
              design_ref="3/C09", level_note=_NOTE, technique=_DST + "; structural oracle over returned L/U"),
 }
